@@ -298,8 +298,29 @@ def p_from_array(pool, rng):
     return 'from_array', [r] if ok else []
 
 
+def p_constructor(pool, rng):
+    """the module-level constructors with the dimensions of a pool object (all pool objects of a history share their row dimensions,
+    so the same identity / zero / unit tensor is requested again and again between in-place operations on earlier results)"""
+    a = pool.pick(rng, std)
+    if a is None:
+        return None
+    rows, cols = list(a.row_dims), list(a.col_dims)
+    k = int(rng.integers(0, 6))
+    if k <= 1:
+        ok, r = call('tt.eye', tt.eye, rows, prop=P)
+    elif k == 2:
+        ok, r = call('tt.zeros', tt.zeros, rows, cols, prop=P)
+    elif k == 3:
+        ok, r = call('tt.ones', tt.ones, rows, cols, prop=P)
+    elif k == 4:
+        ok, r = call('tt.unit', tt.unit, rows, [0] * len(rows), prop=P)
+    else:
+        ok, r = call('tt.uniform', tt.uniform, rows, prop=P)
+    return 'constructor', [r] if ok else []
+
+
 PRODUCERS = [p_add, p_sub, p_mul, p_matmul, p_tensordot, p_tensordot, p_concatenate, p_concatenate, p_rank_tensordot, p_unary, p_diag,
-             p_squeeze, p_qtt, p_svd, p_reads, p_from_array]
+             p_squeeze, p_qtt, p_svd, p_reads, p_from_array, p_constructor, p_constructor]
 
 
 # consumers: documented in-place; fn(pool, rng, target) -> (name, returned objects, retire_target)
